@@ -48,6 +48,12 @@ SKELETONS = [
     dict(name="zero-weight-handover-only", text="N{[<][<]CC(C)[>|0|][>]}|gauss(100,5)|O", closed=True),
     dict(name="suffix-descriptor-after-branch", text="[H]{[>][<]CC[>][<]}|gauss(60,5)|CC(=O)[<]", closed=True),
     dict(name="chain-stopper-unit", text="{[][$]CC[$], [$|0.15|]CC(=O)O; [$][H][]}|gauss(100,10)|", closed=True),
+    dict(name="list-to-endgroup-mixed", text="{[][<]CC[>|0 0 5 0 1 0|], [<]C(C)C[>]; [<][H], [>]O[]}|gauss(60,5)|", closed=True),
+    dict(name="dead-end-endgroup", text="{[][$]CC[$]; [$][H], [$1]O[]}|gauss(50,5)|", closed=False),
+    dict(name="branch-list-to-endgroup-open-terminal", text="[H]{[>][<]C(C[>|1 0 0 1|])C[>]; [<]Br[<]}|gauss(100,5)|", closed=False),
+    dict(name="id-zero-terminals", text="C[>0]{[>0][<0]CC(C[>|0|])[>0]; [<]Cl, [<0]I[<0]}|gauss(60,5)|Br", closed=True),
+    dict(name="explicit-hydrogen-unit", text="N{[<][<]C([H])(C)[>][>]}|gauss(60,5)|O", closed=True),
+    dict(name="explicit-hydrogen-before-descriptor-atom", text="N{[<][<]C([H])CO[>][>]}|gauss(60,5)|F", closed=True, sigtag="explicit-hydrogen-before-descriptor-atom"),
     dict(name="open-right-end", text="N{[<][<]CC[>][>]}|gauss(50,5)|", closed=False),
     dict(name="zero-weight-unit", text="N{[<][<]CC[>], [<|0|]CO[>|0|][>]}|gauss(50,5)|O", closed=True),
 ]
@@ -69,7 +75,7 @@ def skeletons(tier, names=None):
 _BD = re.compile(r"\[[$<>][^\[\]]*\]")
 
 
-def token_reference(text):
+def token_reference(text, fold_h=False):
     """returns dict(mol_with_dummies, atoms=[idx of real atoms in text order],
     descriptors=[(neighbour_real_index, bond_order)] in text order, frag=mol without dummies)"""
     k = [0]
@@ -79,7 +85,11 @@ def token_reference(text):
         return f"[{k[0]}*]"
 
     smi = _BD.sub(sub, text)
-    m = Chem.MolFromSmiles(smi, sanitize=False)
+    # fold_h: RDKit's default reading (an explicit [H] on a heavy atom is folded into it, exactly as when the generator builds
+    # the fragment molecule whose atom indices the descriptors carry); otherwise every written atom is kept (parse level)
+    m = Chem.MolFromSmiles(smi) if fold_h else None
+    if m is None:
+        m = Chem.MolFromSmiles(smi, sanitize=False)
     if m is None:
         raise ValueError(f"reference parse failed for {text!r} -> {smi!r}")
     m.UpdatePropertyCache(strict=False)
@@ -118,7 +128,7 @@ def token_text(token):
 def token_ref_cached(token):
     key = token_text(token)
     if key not in _REF_CACHE:
-        _REF_CACHE[key] = token_reference(key)
+        _REF_CACHE[key] = token_reference(key, fold_h=True)
     return _REF_CACHE[key]
 
 
@@ -154,6 +164,17 @@ class SymProver:
             return
         self.c.prove(a == b, f"{prop}:{label}", self.detail(prop, label))
 
+    def near(self, a, b, scale):
+        """a == b up to the replay tolerance (1e-9 x scale): exact where the normal forms coincide (the usual case, no solver
+        call), otherwise a deviation below what a replay in floating point can see is not reported"""
+        r = a == b
+        if r is True:
+            return True
+        from symx.core import And
+
+        tol = scale * 1e-9
+        return And(a - b <= tol, b - a <= tol)
+
 
 class ConcreteProver:
     symbolic = False
@@ -171,12 +192,16 @@ class ConcreteProver:
         if not bool(cond):
             self.failed.append(f"{prop}:{label}")
 
+    def near(self, a, b, scale):
+        return abs(float(a) - float(b)) <= 1e-9 * max(abs(float(scale)), 1e-300)
+
     def eq(self, prop, a, b, label):
         if prop not in self.enabled:
             return
         self.count += 1
         try:
-            ok = abs(a - b) <= self.tol * max(1.0, abs(a), abs(b))
+            # a reference value of exactly zero (an option that must never be taken) is compared exactly
+            ok = (a == 0) if (isinstance(b, (int, float)) and b == 0) else abs(a - b) <= self.tol * max(1.0, abs(a), abs(b))
         except TypeError:
             ok = a == b
         if not ok:
@@ -199,6 +224,12 @@ def rule(a, b):
     if ia != ib or oa != ob:
         return False
     return (sa, sb) in (("$", "$"), ("<", ">"), (">", "<"))
+
+
+def core_is_sym(x):
+    from symx import core
+
+    return core.is_sym(x)
 
 
 def all_equal(ws, symbolic):
@@ -298,10 +329,10 @@ class Oracle:
                         sb = f2.f_locals.get("starting_bond")
                         if sb is None or sb not in cands:
                             sb = cands[0]
-                        hit = (el, sb)
+                        hit = (el, sb, f2.f_locals.get("my_mol"))
                         break
                 if hit is not None:
-                    self._check_transition_pick(hit[0], hit[1], items, pv)
+                    self._check_transition_pick(hit[0], hit[1], items, pv, hit[2])
                 else:
                     self.unknown_sites = getattr(self, "unknown_sites", 0) + 1
         self.choices.append(rec)
@@ -320,7 +351,10 @@ class Oracle:
         ref_idx = [i for i, bd in enumerate(L) if B is None or rule(B, bd)]
         P.check("C08", [int(x) for x in items] == ref_idx, f"candidates are the compatible descriptors ({cname})")
         P.check("C04", True, "candidate filter reached")
-        if not ref_idx or pv is None or len(pv) != len(ref_idx):
+        if not ref_idx:
+            # nothing is compatible (ill-posed notation): the generator is handed no option and refuses; nothing to judge
+            return
+        if pv is None or len(pv) != len(ref_idx):
             P.check("C08", False, f"probability vector has the wrong length ({cname})")
             return
         ws = [L[i].weight for i in ref_idx]
@@ -333,15 +367,18 @@ class Oracle:
             for k in range(n):
                 # p_k = 1/n if all weights equal else w_k / S   (cross-multiplied)
                 if eq is True:
-                    P.eq("C08", pv[k] * n, 1, f"uniform pick for equal weights ({cname})")
+                    P.check("C08", P.near(pv[k] * n, 1, n), f"uniform pick for equal weights ({cname})")
                 else:
                     lhs = pv[k]
                     # under the path condition eq is decided (the code forked on it) or not; prove both implications
                     from symx.core import Implies
 
-                    P.check("C08", Implies(eq, lhs * n == 1), f"uniform pick for equal weights ({cname})")
-                    P.check("C08", Implies(~eq if not isinstance(eq, bool) else (not eq), lhs * S == ws[k]),
+                    P.check("C08", Implies(eq, P.near(lhs * n, 1, n)), f"uniform pick for equal weights ({cname})")
+                    P.check("C08", Implies(~eq if not isinstance(eq, bool) else (not eq), P.near(lhs * S, ws[k], S)),
                             f"pick probability proportional to weight ({cname})")
+                    if not core_is_sym(ws[k]) and ws[k] == 0:
+                        # an option written with weight zero next to positive ones: probability exactly zero, never "tiny"
+                        P.check("C08", Implies(~eq if not isinstance(eq, bool) else (not eq), lhs == 0), f"an option of weight zero has probability exactly zero ({cname})")
             tot = total(list(pv))
             P.eq("C08", tot, 1, f"probabilities sum to 1 ({cname})")
         else:
@@ -349,6 +386,8 @@ class Oracle:
             for k in range(n):
                 ref = 1.0 / n if eq else ws[k] / S
                 P.eq("C08", float(pv[k]), ref, f"uniform pick for equal weights ({cname})" if eq else f"pick probability proportional to weight ({cname})")
+                if not eq and ws[k] == 0:
+                    P.check("C08", float(pv[k]) == 0.0, f"an option of weight zero has probability exactly zero ({cname})")
         # provenance of the arguments, per call site
         try:
             self._check_provenance(L, B, cfn, cname, cf)
@@ -424,8 +463,43 @@ class Oracle:
                     P.eq("C08", x, y, "left terminal's transition list is transferred to the prefix's open descriptor")
                 P.eq("C08", bd.weight, lt.weight, "left terminal's weight is transferred to the prefix's open descriptor")
 
-    def _check_transition_pick(self, el, sb, items, pv):
+    def _written_descriptor(self, sb, mm):
+        """the descriptor of the parsed notation that the open descriptor sb of the growing molecule is a copy of"""
+        if mm is None:
+            return None
+        for r_, lo, hi in getattr(mm, "_sx_residues", []):
+            if lo <= int(sb.atom_bonding_to) < hi:
+                for bd in r_.obj.bond_descriptors:
+                    if bd.descriptor_num == sb.descriptor_num and int(bd.atom_bonding_to) + lo == int(sb.atom_bonding_to):
+                        return bd
+        return None
+
+    def _same_list(self, a, b):
+        if a is None or b is None:
+            return a is None and b is None
+        a, b = list(a), list(b)
+        if len(a) != len(b):
+            return False
+        if self.P.symbolic:
+            from symx.core import And
+
+            return And(*[x == y for x, y in zip(a, b)])
+        return all(abs(float(x) - float(y)) <= 1e-9 * max(1.0, abs(float(y))) for x, y in zip(a, b))
+
+    def _check_transition_pick(self, el, sb, items, pv, mm=None):
         P = self.P
+        orig = self._written_descriptor(sb, mm)
+        if orig is not None:
+            # the list that is followed is the one WRITTEN on that descriptor (or on the left terminal, whose list the
+            # prefix's open descriptor takes over at the start of a block), not whatever the molecule's copy carries
+            lt = el.left_terminal
+            ok = self._same_list(sb.transitions, orig.transitions)
+            if lt.transitions is not None:
+                from symx.core import Or as _Or
+
+                alt = self._same_list(sb.transitions, lt.transitions)
+                ok = _Or(ok, alt) if P.symbolic else (ok or alt)
+            P.check("C08", ok, "the list followed is the list written on the open descriptor")
         ts = list(sb.transitions)
         nall = len(el.repeat_bonds) + len(el.end_bonds)
         P.check("C08", len(pv) == len(ts) == nall and [int(x) for x in items] == list(range(nall)),
@@ -435,7 +509,7 @@ class Oracle:
         S = total(ts)
         for k in range(len(ts)):
             if P.symbolic:
-                P.check("C08", pv[k] * S == ts[k], "listed transition weights are followed exactly")
+                P.check("C08", P.near(pv[k] * S, ts[k], S), "listed transition weights are followed exactly")
             else:
                 P.eq("C08", float(pv[k]), float(ts[k]) / float(S), "listed transition weights are followed exactly")
         self.cur_transition = (el, sb)
@@ -798,10 +872,59 @@ def apply_role_values(gen, mol, values):
             bd.weight = float(v)
 
 
+_LIST = re.compile(r"\|(\s*[0-9.eE+-]+(?:\s+[0-9.eE+-]+)+\s*)\|")
+
+
+def list_twin(text):
+    """the same notation with its first transition list reversed (same total, other entries); None if there is no list or
+    the reversed list is the same"""
+    m = _LIST.search(text)
+    if m is None:
+        return None
+    ent = m.group(1).split()
+    if ent == ent[::-1]:
+        return None
+    return text[:m.start(1)] + " ".join(ent[::-1]) + text[m.end(1):]
+
+
+class FirstPossibleRng:
+    """generator stub for auxiliary generations: the first option of positive probability"""
+
+    def __deepcopy__(self, memo):
+        return self
+
+    def choice(self, a, size=None, replace=True, p=None, **kw):
+        items = list(range(a)) if isinstance(a, int) else list(a)
+        if p is None:
+            return items[0]
+        for it, q in zip(items, list(p.v) if hasattr(p, "v") else list(p)):
+            if q > 0:
+                return it
+        raise ValueError("probabilities do not sum to 1")
+
+
+def generate_twin_first(g, skel):
+    """an earlier generation, in the same process, of a notation that differs only in the entries of a transition list"""
+    from symx import gen
+
+    tw = list_twin(skel["text"])
+    if tw is None:
+        return
+    try:
+        tm = g.Molecule(tw)
+        gen.install_observers(g, gen.Observer())
+        gen.DRAW_FN[0] = gen.scripted_draw([45.0] * 16)
+        tm.generate(rng=FirstPossibleRng())
+    except Exception:
+        pass  # the twin may be ill-posed: only its side effects on the process matter
+
+
 def symbolic_path(c, g, skel, N, enabled, weight_mode="symbolic", extra=None, forced=None):
     from symx import gen
     from symx.rng import SymRng
 
+    if skel.get("after_twin"):
+        generate_twin_first(g, skel)
     mol = g.Molecule(skel["text"])
     roles = gen.symbolize_weights(c, mol) if weight_mode == "symbolic" else {}
     obs = gen.Observer()
@@ -813,10 +936,11 @@ def symbolic_path(c, g, skel, N, enabled, weight_mode="symbolic", extra=None, fo
         def build(mv, c):
             picks = [r.index for r in state["rng"].calls]
             targets = [float(c.eval_in(mv, t)) for (_, t, _) in obs.draws]
-            rp = {"kind": "gen", "skeleton": skel["name"], "text": skel["text"], "closed": skel.get("closed", False),
+            rp = {"kind": "gen", "skeleton": skel["name"], "text": skel["text"], "closed": skel.get("closed", False), "after_twin": bool(skel.get("after_twin")),
                   "weights": role_values(c, mv, roles), "picks": picks, "targets": targets, "label": f"{prop}:{label}",
                   "prop": prop, "N": N}
-            return (f"{prop}:{label}", f"{label} [{skel['name']}: {skel['text']}] picks={picks} targets={targets}", rp)
+            sig = f"{prop}:{label}" + (f"@{skel['sigtag']}" if skel.get("sigtag") else "")
+            return (sig, f"{label} [{skel['name']}: {skel['text']}] picks={picks} targets={targets}", rp)
         return build
 
     prover = SymProver(c, enabled, detail)
@@ -890,6 +1014,8 @@ class ScriptedRng:
 def replay_gen(rp, gb, extra=None):
     from symx import gen
 
+    if rp.get("after_twin"):
+        generate_twin_first(gb, {"text": rp["text"]})
     mol = gb.Molecule(rp["text"])
     apply_role_values(gen, mol, rp["weights"])
     obs = gen.Observer()
@@ -935,6 +1061,11 @@ def gen_cases(tier, nq=2, nt=3, names=None):
                 out.append({"name": f"{s['name']}/N{N}/picks{''.join(map(str, f))}", "skeleton": s, "N": N, "forced": list(f)})
         else:
             out.append({"name": f"{s['name']}/N{N}", "skeleton": s, "N": N})
+            if list_twin(s["text"]) is not None:
+                # the same skeleton with the weights as written, generated after a near twin of it (a notation that differs only
+                # in the entries of a transition list) was generated in the same process
+                s2 = dict(s, after_twin=True, concrete_weights=True)
+                out.append({"name": f"{s['name']}/N{N}/after-list-twin", "skeleton": s2, "N": N})
     return out
 
 
@@ -944,7 +1075,8 @@ def run_gen_case(case, g, tier, res, prop, enabled, budget_s=None, extra=None):
     skel, N = case["skeleton"], case["N"]
 
     def h(c):
-        return symbolic_path(c, g, skel, N, enabled, extra=extra, forced=case.get("forced"))
+        return symbolic_path(c, g, skel, N, enabled, extra=extra, forced=case.get("forced"),
+                             weight_mode="concrete" if skel.get("concrete_weights") else "symbolic")
 
     stats, cexs, complete = explore_case(res, h, tier, on_path=collector(res, prop), budget_s=budget_s)
     # exceptions on paths are part of the verdict of C06 (closed skeletons); elsewhere they are recorded
